@@ -1,6 +1,7 @@
 from collections.abc import Iterable, Sequence
 from typing import Any
 
+from .policy import _is_strict, match_resource
 from .policy import evaluate as evaluate_policy
 from .policyset import decide as decide_policyset
 
@@ -129,11 +130,16 @@ def compile(policy: dict[str, Any]) -> Any:
         # Keep document order: it decides first-applicable and which rule id is reported
         candidates.sort(key=lambda r: order.get(id(r), 0))
 
-        # Put candidates into buckets and PICK ONLY the most specific non-empty bucket
+        # Put candidates into buckets and PICK ONLY the most specific bucket that holds a
+        # rule whose resource target matches the request (a rule for another id or with
+        # other attributes must not shadow the more general rules)
+        strict = True if _is_strict(env) else None
         buckets: list[list[dict[str, Any]]] = [[], [], [], []]
         for r in candidates:
             cat = _categorize(r, res_type)
             if cat is None:
+                continue
+            if not match_resource(r.get("resource") or {}, res, strict=strict):
                 continue
             buckets[cat].append(r)
         selected: list[dict[str, Any]] = []
